@@ -1778,3 +1778,13 @@ func (r *runner) sentinel(o types.Object) bool {
 	sentinelCache[o] = res
 	return res
 }
+
+// MayTags returns the sorted may-set.
+func (s *State) MayTags() []string {
+	var out []string
+	for k := range s.May {
+		out = append(out, k)
+	}
+	sort.Strings(out)
+	return out
+}
